@@ -48,6 +48,10 @@ CHECKS = {
    tech="TLC-generated programs with discarded statements; the harness deletes every statement the real compiler flags as an unused result, recompiles and runs both programs; TLC evaluates the Removable predicate of TraceUnused.tla on the recorded pairs of runs",
    text="TLC enumerates programs whose middle statement (at root level and inside a block; thorough: two of them) is a discarded expression from a grammar of 45 shapes - literals, variables, queries, objects, arrays, pure calls, arithmetic/comparison/||/?? operators, not, groups, blocks, ifs, del/exists, closures - with and without an assignment or del hidden in an operand, argument, member, predicate or closure body. For every real warning `unused ...` (not `unused variable`) whose label covers exactly one statement, the statement is deleted, the program recompiled, and both are run on every event; TLC checks: if the compiler typed the statement infallible, final event, metadata and success/failure are equal; otherwise whenever the original succeeds the edited one succeeds with the same final event.",
    note="trusted: the harness' renderer and the statement deletion (re-rendering the AST without the statement); a warning whose span is not exactly one statement, or whose edited program does not compile, is counted as unjudged"),
+ "C14": dict(engine="A", cat="model_checking", design="5/C14",
+   tech="TLC model checking of Runtime.tla (all interleavings of threads sharing an immutable program, cleared-runtime histories, with non-vacuity deviations) + conformance: the real Program compiled twice, run on fresh / cleared runtimes and from 8 threads, outcomes compared and sequential traces validated by TraceCore",
+   text="Design level: Runtime.tla lets 3 threads evaluate one immutable program step by step in every interleaving, each processing 2 events with Runtime::clear in between; TLC checks exhaustively that every finished run's result and final event are the function of its event alone (Deterministic) and the frame condition (a step of t touches only t's state); two named deviations (a shared scratch cell; reuse without clear) are checked to violate it, so the invariant is not vacuous. Implementation level: every program (TLC-generated from the C08/C09/C13 grammars, plus every stdlib example that calls no exempt function) is compiled twice (reports must be equal), run per event on a fresh runtime (baseline; for generated programs the traces are validated by TraceCore), on one runtime cleared between events in two orders, and by 8 threads sharing the one Program with rotated event orders and yields; TLC requires every observed outcome (result, final event, metadata, variables) to equal the baseline.",
+   note="trusted: the harness' thread driver; real OS schedules are sampled (8 threads x reps x events per program), not enumerated - the exhaustive part is the model's; exempt functions listed in the evidence"),
 }
 
 NA = {
